@@ -9,6 +9,8 @@ import Verif.Lemmas.MptCodec
 import Verif.Lemmas.MptPartial
 import Verif.Lemmas.EventCodec
 import Verif.Lemmas.MergeRound
+import Verif.Lemmas.MptInsert
+import Verif.Lemmas.DeadNodes
 namespace Verif.Props.C14
 open Verif.Codec
 open Verif.Mpt (Bytes Nib Node key WFn nibChar lookup)
@@ -169,6 +171,46 @@ open Verif.MptStore in
 theorem C14_events_put_real (v : Nat) (b : Bytes) (t : Node) (pre p : List Nib) :
     (∀ e ∈ (insertE v b t pre p).2, PutNonEmpty e) ∧ (∀ e ∈ (deleteE v t pre p).2, PutNonEmpty e) :=
   ⟨insertE_put_nonempty v b t pre p, deleteE_put_nonempty v t pre p⟩
+
+/-! ### Value nodes (type code 1) and typed reads -/
+
+/-- a value node round-trips for ANY value bytes (empty included) and any 64-bit tracker; its type code is 1, its hash
+    input is the value itself, and it has a hash iff the value is non-empty (`GetHashBytes` returns nil otherwise) -/
+theorem C14_value_node (ver org : Nat) (hv : ver < 2 ^ 64) (ho : org < 2 ^ 64) (b : Bytes) :
+    decode (encode ⟨ver, org, .value b⟩) = .ok ⟨ver, org, .value b⟩ ∧ typeByte (.value b) = 1 ∧
+    hashBytes ⟨ver, org, .value b⟩ = b ∧ (hasHash ⟨ver, org, .value b⟩ = true ↔ b ≠ []) := by
+  refine ⟨decode_encode _ ⟨hv, ho, trivial⟩, rfl, rfl, ?_⟩
+  cases b <;> simp [hasHash]
+
+/-- typed read after a typed insert: if the value type's UnmarshalMsg inverts its MarshalMsg (`hum`) and no value
+    marshals to nothing (`hm`; such an Insert is a Delete), then `GetNodeValue` at the inserted path returns the inserted
+    value and every other path reads as before -/
+theorem C14_typed_read {α : Type} (m : α → Bytes) (um : Bytes → Option α) (hum : ∀ x, um (m x) = some x)
+    (hm : ∀ x, m x ≠ []) (t : Node) (hwf : Verif.Mpt.WF t) (v : Nat) (p q : List Nib) (x : α) :
+    getNodeValue um (Verif.Mpt.insert v (m x) t p) q = if q = p then .ok x else getNodeValue um t q := by
+  unfold getNodeValue
+  rw [Verif.Mpt.lookup_insert v (m x) (hm x) t p q hwf]
+  by_cases h : q = p
+  · simp [h, hum]
+  · simp [h]
+
+/-- instance: msgp strings (`MarshalMsg = AppendString`, `UnmarshalMsg = ReadStringBytes`), the typed value of suite
+    c14's ops `insstr` / `val` -/
+theorem C14_typed_read_string (t : Node) (hwf : Verif.Mpt.WF t) (v : Nat) (p q : List Nib) (x : { s : Bytes // s.length < 4294967296 }) :
+    let m := fun (y : { s : Bytes // s.length < 4294967296 }) => Verif.DeadNodes.appendString y.1
+    let um := fun b => match Verif.DeadNodes.readString b with
+      | .ok (s, _) => if h : s.length < 4294967296 then some (⟨s, h⟩ : { s : Bytes // s.length < 4294967296 }) else none
+      | _ => none
+    getNodeValue um (Verif.Mpt.insert v (m x) t p) q = if q = p then .ok x else getNodeValue um t q := by
+  intro m um
+  apply C14_typed_read m um _ _ t hwf v p q x
+  · intro y
+    have := Verif.DeadNodes.readString_appendString y.1 [] y.2
+    simp only [List.append_nil] at this
+    simp only [um, m, this, y.2, dite_true]
+  · intro y
+    simp only [m, Verif.DeadNodes.appendString]
+    split <;> (try split) <;> (try split) <;> simp
 
 /-- the one-pass computation run by the model driver (`modeld codec`, ops `store` / `save` / `snap`) is the
     specification: root key by `Verif.Mpt.key`, stored nodes by `nodesOf` -/
